@@ -181,6 +181,10 @@ def run_golden(req):
         raise BudgetExceeded()
 
     try:
+        fobj = O.resolve_fn(req["fn"])
+    except Exception as e:
+        return {"unbuildable": "no-such-callable:%s" % type(e).__name__}
+    try:
         args = [C.rebuild(c) for c in req["args"]]
         kwargs = {k: C.rebuild(c) for k, c in (req.get("kw") or {}).items()}
         pre = [C.canon(a) for a in args] + [C.canon(kwargs[k]) for k in sorted(kwargs)]
@@ -196,7 +200,7 @@ def run_golden(req):
     CNT = [0, OP_BUDGET]
     try:
         try:
-            res = invoke(req, args, kwargs)
+            res = fobj(*args, **kwargs)
             outcome = ["ret", C.canon(res)]
         finally:
             CNT[1] = INF
@@ -271,6 +275,7 @@ class Sim:
                       "lock_blocks": 0}
         self.base_rlimit = None
         self.interp0 = None
+        self.dead_ids = set()
         # index explicit schedule
         self.trig_by_op = {}
         sched = spec.get("schedule") or {}
@@ -436,6 +441,29 @@ class Sim:
                 self.reg_digest.pop(r, None)
                 self.stats["evictions"] += 1
             self.rec("evict", me.idx, k, list(op["regs"]))
+        elif kind == "defclass":
+            byname = {a["name"]: a for a in self.spec.get("adhoc_classes", ())}
+            for nm in op["names"]:
+                cls = C.define_adhoc(byname[nm], self.dead_ids)
+                if id(cls) in self.dead_ids or any(
+                        type(v) is tuple and id(v) in self.dead_ids
+                        for v in vars(cls).values()):
+                    self.stats["identity_reuse"] = self.stats.get("identity_reuse", 0) + 1
+            self.rec("defclass", me.idx, k, list(op["names"]))
+        elif kind == "dropclass":
+            for r in op.get("regs", ()):
+                self.regs.pop(r, None)
+                self.reg_digest.pop(r, None)
+                self.stats["evictions"] += 1
+            me.injected = None
+            for nm in reversed(op["names"]):
+                C.drop_adhoc(nm, self.dead_ids)
+            self.stats["classes_dropped"] = self.stats.get("classes_dropped", 0) + \
+                len(op["names"])
+            gc.collect()
+            self.stats["gc_collects"] += 1
+            self.rec("dropclass", me.idx, k, list(op["names"]))
+            self.rec("gc", me.idx, k)
         elif kind == "gc":
             n = gc.collect()
             self.stats["gc_collects"] += 1
@@ -451,6 +479,11 @@ class Sim:
         fnk = O.fn_key(op["fn"])
         if op.get("skip"):
             self.rec("skipped", me.idx, k, fnk, op["skip"])
+            return
+        try:
+            fobj = O.resolve_fn(op["fn"])
+        except Exception as e:  # the callable does not exist in this tree / class dropped
+            self.rec("skipped", me.idx, k, fnk, "no-such-callable:%s" % type(e).__name__)
             return
         try:
             args = [O.resolve_arg(a, self.regs) for a in op.get("args", ())]
@@ -479,7 +512,7 @@ class Sim:
         res = None
         try:
             try:
-                res = invoke(op, args, kwargs)
+                res = fobj(*args, **kwargs)
                 outcome = ["ret", C.canon(res)]
             finally:
                 me.cnt[1] = INF
@@ -571,7 +604,8 @@ class Sim:
         global CNT
         spec = self.spec
         for a in spec.get("adhoc_classes", ()):
-            C.define_adhoc(a)
+            if not a.get("dynamic"):
+                C.define_adhoc(a)
         knobs = spec.get("knobs") or {}
         if knobs.get("gc") == "enabled":
             gc.enable()
